@@ -13,9 +13,12 @@ func (s *stateMachine[V, H, A]) ProcessStart(round types.Round) []actions.Action
 		return nil
 	}
 	s.isHeightStarted = true
+	// The entry holds its own copy of the height: processLoop may run through to the commit of
+	// this height and move s.state.height on before the driver logs the entry.
+	startedHeight := wal.Start(s.state.height)
 	return s.processLoop(
 		[]actions.Action[V, H, A]{
-			&actions.WriteWAL[V, H, A]{Entry: (*wal.Start)(&s.state.height)},
+			&actions.WriteWAL[V, H, A]{Entry: &startedHeight},
 			s.startRound(round),
 		},
 		nil,
